@@ -1530,7 +1530,7 @@ def check(name, cond, safety=False):
     s.add(z3.Not(cz))
     t = time.time()
     if os.environ.get('PVC_DUMP'):
-        with open(os.path.join(os.environ['PVC_DUMP'], 'vc_%s.smt2' % name.replace('/', '_')), 'w') as f:
+        with open(os.path.join(os.environ['PVC_DUMP'], 'vc_%s_%s.smt2' % (name.replace('/', '_'), ''.join('T' if d else 'F' for d in ctx.trail)[-12:])), 'w') as f:
             f.write(s.to_smt2())
     backend = 'z3'
     pit_note = None
@@ -1585,9 +1585,18 @@ def check(name, cond, safety=False):
         # polynomial-identity back end, then z3 again on the Ackermannised formula with the full budget
         from . import pit
         ok, pinfo = (False, pit_note) if tried_pit else pit.prove(list(ctx.pc), cz, entails_cheap)
+        r_cli = None
+        if not ok and _looks_nonlinear(cz):
+            # portfolio stage: the same query (SMT-LIB text of the first solver's assertions) is given to the installed command-line
+            # solvers, z3 5.1 and z3 4.8.12, side by side.  z3's non-linear real procedure is unstable between the in-process API
+            # and the command line on identical input; an `unsat` from any of them is a proof, any other answer is ignored.
+            r_cli = _cli_portfolio(s.to_smt2(), 15)
         if ok:
             r = z3.unsat
             backend = 'pit'
+        elif r_cli is not None:
+            r = z3.unsat
+            backend = r_cli
         else:
             pit_note = str(pinfo)
             s = z3.Solver()
@@ -1644,6 +1653,47 @@ def check(name, cond, safety=False):
         ctx.results.append((name, 'unknown', info))
     # continue the path under the checked fact (standard assert-then-assume)
     ctx.add(cz)
+
+
+def _cli_portfolio(smt2, seconds):
+    """run the installed z3 command-line solvers on one query concurrently; return a back-end label if one answers unsat"""
+    import shutil
+    import time
+    import subprocess
+    import tempfile
+    exes = [(e, lab) for e, lab in (('z3-new', 'z3-5.1-cli'), ('/usr/bin/z3', 'z3-4.8-cli')) if shutil.which(e)]
+    if not exes:
+        return None
+    fd, path = tempfile.mkstemp(suffix='.smt2')
+    with os.fdopen(fd, 'w') as f:
+        f.write(smt2)
+    procs = []
+    try:
+        for e, lab in exes:
+            procs.append((subprocess.Popen([e, '-T:%d' % seconds, path], stdout=subprocess.PIPE, stderr=subprocess.DEVNULL, text=True), lab))
+        deadline = time.time() + seconds + 5
+        hit = None
+        pending = list(procs)
+        while pending and hit is None and time.time() < deadline:
+            for pr, lab in list(pending):
+                if pr.poll() is not None:
+                    pending.remove((pr, lab))
+                    out = (pr.stdout.read() or '').strip().splitlines()
+                    if out and out[0].strip() == 'unsat':
+                        hit = lab
+                        break
+            if hit is None and pending:
+                time.sleep(0.05)
+        return hit
+    finally:
+        for pr, _ in procs:
+            if pr.poll() is None:
+                pr.kill()
+            try:
+                pr.wait(timeout=5)
+            except Exception:
+                pass
+        os.remove(path)
 
 
 def _looks_nonlinear(z, limit=20000):
